@@ -46,7 +46,7 @@ def main():
                 rec[f"{kind}_repeat_same"] = again == rec[f"{kind}_header"] + rec[f"{kind}_source"]
             f = models.compile_py_ekf(m, common_subexpression_elimination=False)
             rec["py_layout"] = {
-                "arglist": [str(s) for s in f._state_model.arglist],
+                "arglist": [str(s) for s in models.compile_py_model(m, common_subexpression_elimination=False).arglist],
                 "state": [str(s) for s in f.arglist_state],
                 "control": [str(s) for s in f.arglist_control],
                 "calibration": [str(s) for s in f.arglist_calibration],
